@@ -2157,7 +2157,10 @@ fn find_required_sections<'data, A: Arch>(
             crate::verif_api::trace::end(errors.len(), 0);
         }
     }
-    if let Some(error) = errors.pop() {
+    // Errors were pushed in whatever order the worker threads happened to run. Sort them so that the
+    // error we report doesn't depend on thread scheduling.
+    errors.sort_by_cached_key(Error::to_string);
+    if let Some(error) = errors.into_iter().next() {
         return Err(error);
     }
 
